@@ -106,7 +106,8 @@ def write_instance(wd, name, info, *, actions, ct_slots, pt_slots, max_steps, ma
         mc.append("MCView == KeyOf(pool, nsteps)")
     mc.append('EmitState == PrintT(<<"S", ToJson([key |-> KeyOf(pool, nsteps), hist |-> hist])>>)')
     mc.append('EmitStep == PrintT(<<"T", ToJson([key |-> KeyOf(pool, nsteps), step |-> hist\'[Len(hist\')]])>>)')
-    mc.append("BalanceOk == BalanceOkOn(1..%d)" % min(t - 1, 60))
+    # correction factors are units modulo t: for a composite plain modulus the balancing is stated on the units only
+    mc.append("BalanceOk == BalanceOkOn(%s)" % tla_set([x for x in range(1, min(t - 1, 60) + 1) if math.gcd(x, t) == 1]))
     mc.append(extra_defs)
     mc.append("====")
     open(os.path.join(wd, name + ".tla"), "w").write("\n".join(mc) + "\n")
